@@ -305,6 +305,12 @@ def run(db, chk) -> None:
     from ..specs.discipline import check_stateless
     check_stateless(db, chk, "C11.R7-no-module-state", [ST])          # decoding / encoding helpers keep nothing between calls (tables of different traces never mix)
     chk.floor("C11.R7-no-module-state", 10)
+    # the alignment shift is one constant (the minimum over ALL ranks): a running minimum would make a rank's times depend on the order the ranks are visited in (shared with C01)
+    from .c01 import _shift
+    from .c09 import _Prefixed
+    _shift(db, _Prefixed(chk, "C11.R9-order-independent-alignment"), rule="C11.R9-order-independent-alignment")
+    from ..specs.discipline import check_no_shared_state
+    check_no_shared_state(db, chk, "C11.R8-no-id-keyed-state", "a memo keyed by symbol id outlives its Trace: the next trace of the process numbers its symbols differently and is classified by the first trace's table")
     from .c01 import _parser
     _parser(db, chk, enc_rule="C11.R6-local-encoding", full=False)      # the per-file table: ids handed to the frame ARE the table's ids
     gb = []
